@@ -60,6 +60,8 @@ CONTEXT = {
 }
 # scene classes on which a leaf was seen live (first liveness scans); None = any cloudy class
 LIVE_CLASSES = {
+    ('BASE_LVL_HEIGHT_PERC',): ['asym-split', 'asym-split', 'split', 'demo-like', 'merge'],
+    ('BASE_LVL_LOOKBACK_PERC',): ['asym-split', 'asym-split', 'split', 'demo-like', 'merge'],
     ('MAX_HOLES_OKTA8',): ['demo-like', 'multi-hit', 'single'],
     ('GROUPING_PRMS', 'dt_scale'): ['demo-like'],
     ('GROUPING_PRMS', 'height_scale_range'): ['demo-like'],
@@ -77,7 +79,7 @@ LIVE_CLASSES = {
     ('EXCLUDE_FOR_BASE_HEIGHT_CALC',): ['demo-like', 'two-far', 'split'],
 }
 CLOUDY = ['split', 'merge', 'merge+split', 'demo-like', 'two-far', 'multi-hit', 'rng-sensitive',
-          'single', 'borderline']
+          'single', 'borderline', 'asym-split']
 
 
 def path_str(path):
@@ -104,10 +106,31 @@ def packaged_defaults():
     return a
 
 
+def discovered_leaves(defaults):
+    """Leaves of the packaged YAML this table does not know (a parameter added by a change to
+    the repository): they get a domain derived from the type of their default, so that a new
+    parameter is exercised through every route from the day it appears."""
+    return [q for q in leaf_paths(defaults) if q not in LEAVES]
+
+
+def _typed_domain(default):
+    if isinstance(default, bool):
+        return [not default]
+    if isinstance(default, int):
+        return [0, 1, default + 1, 2 * default + 3]
+    if isinstance(default, float):
+        return [0.0, default / 2, default * 2, 1.0]
+    return []
+
+
 def gen_value(rng, path, avoid=()):
     """A valid value for the leaf, different (typed) from every value in `avoid`."""
     from .digest import typed_repr
     avoid_r = {typed_repr(v) for v in avoid}
+    if path not in LEAVES:          # discovered leaf: domain from the type of its default
+        dom = [v for v in _typed_domain(get_path(packaged_defaults(), path))
+               if typed_repr(v) not in avoid_r]
+        return rng.choice(dom) if dom else copy.deepcopy(get_path(packaged_defaults(), path))
     for _ in range(40):
         val = LEAVES[path](rng)
         if typed_repr(val) not in avoid_r:
@@ -126,15 +149,21 @@ def assign_from_leaves(leaf_values: dict) -> dict:
     return out
 
 
-def gen_leaf_values(rng, defaults, n_leaves=None, must=(), exclude=()):
+def gen_leaf_values(rng, defaults, n_leaves=None, must=(), exclude=(), allow_default=0.0):
     """Seeded subset of leaves with valid values (context dependencies honoured). MIN_SEP lists
     are kept consistent: VALS always one longer than LIMS."""
     pool = [p for p in LEAVES if p not in exclude and p != ('SLICING_PRMS', 'height_scale_mode')
             and p != ('MPL_STYLE',)]
+    pool += [p for p in discovered_leaves(defaults) if p not in exclude
+             and _typed_domain(get_path(defaults, p))]
     k = n_leaves if n_leaves is not None else rng.choice([1, 1, 2, 3, 5, 8])
     chosen = list(must) + [p for p in rng.sample(pool, min(k, len(pool))) if p not in must]
     out = {}
     for path in chosen:
+        if allow_default and path not in must and rng.random() < allow_default:
+            # the packaged default, named explicitly: matters when the global holds another value
+            out[path] = copy.deepcopy(get_path(defaults, path))
+            continue
         out[path] = gen_value(rng, path, avoid=[get_path(defaults, path)])
         for cpath, cvals in CONTEXT.get(path, {}).items():
             if cpath not in out:
@@ -193,3 +222,20 @@ def apply_in_place(target: dict, assign: dict):
     """What a user does when editing the global dictionary directly: nested item assignment."""
     for path in leaf_paths(assign):
         set_path(target, path, copy.deepcopy(get_path(assign, path)))
+
+
+def all_leaves_poison(rng, defaults, avoid_leaves=None):
+    """A valid non-default value for *every* processing leaf (different from avoid_leaves[path]
+    where given). MIN_SEP lists keep their packaged lengths."""
+    avoid_leaves = avoid_leaves or {}
+    out = {}
+    for path in PROCESSING_LEAVES:
+        dflt = get_path(defaults, path)
+        avoid = [dflt] + ([avoid_leaves[path]] if path in avoid_leaves else [])
+        val = gen_value(rng, path, avoid=avoid)
+        if path == ('MIN_SEP_LIMS',) and len(val) != 1:
+            val = [7000]
+        if path == ('MIN_SEP_VALS',) and len(val) != 2:
+            val = [333, 1111]
+        out[path] = val
+    return out
